@@ -96,10 +96,11 @@ func startupOne(c *vf.Ctx, seed int64, batch, iter int, race bool) {
 	rep := replayRec{Mode: "stress", Race: race, Batch: batch, From: iter, Iters: iter + 1}
 	viol := func(fp, what string) { c.Violation(fp, what, rep) }
 	n := 3
-	switch x := rng.Intn(40); {
+	big := c.Pick(40, 160) // 1 in 40 (quick) / 1 in 160 (thorough, 30x the iterations) uses 2000 workers
+	switch x := rng.Intn(big); {
 	case x == 0:
 		n = 2000
-	case x < 20:
+	case x < big/2:
 		n = 50
 	}
 	su := &startupIter{d: daemon.New(), it: &stressIter{}, async: rng.Intn(2) == 0}
